@@ -55,6 +55,10 @@ func c16Ops(set string) []c16Op {
 			ops = append(ops, c16Op{Name: fmt.Sprintf("feed(%s,%s)by_f1", a, s), Kind: "feed", Who: "f1", Asset: a, Source: s})
 		}
 	}
+	// RE-feeds of an UNCHANGED value (every other feed carries a value unique to its depth)
+	ops = append(ops,
+		c16Op{Name: "refeed_same_value(ATM,elys)by_f1", Kind: "feed", Who: "f1", Asset: "ATM", Source: "elys", Dt: 777},
+		c16Op{Name: "multirefeed_same_value(ATM/elys,ATMX/x)by_f1", Kind: "multi", Who: "f1", Dt: 777})
 	ops = append(ops,
 		c16Op{Name: "feed(ATM,elys)by_f2", Kind: "feed", Who: "f2", Asset: "ATM", Source: "elys"},
 		c16Op{Name: "feed(ATMX,band)by_f2", Kind: "feed", Who: "f2", Asset: "ATMX", Source: "band"},
@@ -66,6 +70,7 @@ func c16Ops(set string) []c16Op {
 		c16Op{Name: "f1.set_active", Kind: "feeder_active", Who: "f1"},
 		c16Op{Name: "f1.delete_self", Kind: "feeder_delete", Who: "f1"},
 		c16Op{Name: "outsider.set_active", Kind: "feeder_active", Who: "out"},
+		c16Op{Name: "f2.set_active", Kind: "feeder_active", Who: "f2"},
 		c16Op{Name: "gov.remove(f2)", Kind: "gov_remove", Who: "f2"},
 		c16Op{Name: "gov.add(f1)", Kind: "gov_add", Who: "f1"},
 		c16Op{Name: "gov.remove_asset_info(uaaa)", Kind: "info_remove", Asset: "uaaa"},
@@ -183,6 +188,9 @@ func (r *c16Run) apply(ctx sdk.Context, ref *c16Ref, op c16Op, depth int, path [
 		r.find(Finding{Clause: clause, Culprit: op.Kind, Disc: disc, Detail: detail}, path)
 	}
 	price := int64(1000*(depth+1) + 1)
+	if (op.Kind == "feed" || op.Kind == "multi") && op.Dt > 0 {
+		price = op.Dt // constant value: a re-feed of the same number
+	}
 	who := r.addr[op.Who]
 	authorised := func(name string) bool { a, ok := ref.feeders[name]; return ok && a }
 	switch op.Kind {
@@ -270,8 +278,39 @@ func (r *c16Run) apply(ctx sdk.Context, ref *c16Ref, op c16Op, depth int, path [
 		ctx = ctx.WithBlockHeight(int64(ref.h)).WithBlockTime(time.Unix(int64(ref.t), 0).UTC())
 		r.st.Clauses["endblock"]++
 	}
+	r.recordSet(ctx, ref, op, path)
 	r.lookups(ctx, ref, op, path)
 	return ctx
+}
+
+// recordSet compares the STORED price records with the reference set (asset, source, timestamp,
+// height, value) after every op: a feed that was accepted but not written, or written with a stale
+// timestamp / height, shows here at once — lookups only show it when the older record has expired.
+// States in which two reference records share one store key (the known un-separated key format) are
+// left to the lookup clauses.
+func (r *c16Run) recordSet(ctx sdk.Context, ref *c16Ref, op c16Op, path []string) {
+	keys := map[string]int{}
+	want := make([]string, 0, len(ref.recs))
+	for _, v := range ref.recs {
+		keys[fmt.Sprintf("%s%s|%d", v.Asset, v.Source, v.Ts)]++
+		want = append(want, fmt.Sprintf("%s|%s|%d|%d|%d", v.Asset, v.Source, v.Ts, v.Height, v.Price))
+	}
+	for _, n := range keys {
+		if n > 1 {
+			r.st.Clauses["record_set_skipped_key_collision"]++
+			return
+		}
+	}
+	sort.Strings(want)
+	got := []string{}
+	for _, p := range r.w.App.OracleKeeper.GetAllPrice(ctx) {
+		got = append(got, fmt.Sprintf("%s|%s|%d|%d|%d", p.Asset, p.Source, p.Timestamp, p.BlockHeight, p.Price.TruncateInt64()))
+	}
+	sort.Strings(got)
+	r.st.Clauses["record_set"]++
+	if strings.Join(got, ";") != strings.Join(want, ";") {
+		r.find(Finding{Clause: "stored_price_records_differ_from_reference", Culprit: op.Kind, Disc: "", Detail: fmt.Sprintf("after %s the store holds [%s], expected [%s]", op.Name, strings.Join(got, "; "), strings.Join(want, "; "))}, path)
+	}
 }
 
 func feederState(ref *c16Ref, who string) string {
